@@ -11,10 +11,10 @@ ASSUMPTIONS = [
 ]
 
 
-def _b(nv, seq_max, rank_max, k, N, cs, dups=True, s0=None):
-    b = {"nv": nv, "seq_max": seq_max, "rank_max": rank_max, "k": k, "N": N, "cs": cs, "dups": dups, "s0": s0}
-    b["_label"] = "%dv-seq%d-rank%d-k%d-N%d-c%s%s%s" % (nv, seq_max, rank_max + 1, k, N, "".join(map(str, cs)), "-dup" if dups else "",
-                                                       "" if s0 is None else "-s0_%d" % s0)
+def _b(nv, seq_max, rank_max, k, N, cs, dups=True, s0=None, dmax=1, writable=True):
+    b = {"nv": nv, "seq_max": seq_max, "rank_max": rank_max, "k": k, "N": N, "cs": cs, "dups": dups, "s0": s0, "dmax": dmax, "writable": writable}
+    b["_label"] = "%dv-seq%d-rank%d-k%d-N%d-c%s%s%s" % (nv, seq_max, rank_max + 1, k, N, "".join(map(str, cs)), ("-dup%d" % dmax) if dups else "",
+                                                       ("" if s0 is None else "-s0_%d" % s0) + ("" if writable else "-readonly"))
     return b
 
 
@@ -31,9 +31,11 @@ OBLIGATIONS = [
              "version, wrong-share and good-host counts, summary text, servermap copy",
         outside="verify=True (reading every share); happiness count; report text"),
     chx("repair_rules", "C14_h", "h_repair", timeout=T,
-        cases={"quick": [_b(2, 2, 1, 2, 3, [1, 2], dups=False)],
-               "thorough": [_b(3, 2, 1, 2, 3, [1, 2], dups=False, s0=s) for s in (1, 2)] + [_b(2, 3, 2, 2, 3, [1, 2, 3], dups=True)]},
-        desc="Repairer._got_full_servermap(smap, force) with force and writecap symbolic: nothing recoverable -> unsuccessful result, grid "
+        cases={"quick": [_b(2, 2, 1, 2, 3, [1, 2], dups=True), _b(2, 2, 0, 3, 4, [2, 3], dups=True, dmax=2),
+                         _b(2, 2, 0, 2, 3, [1, 2], dups=False, writable=False)],
+               "thorough": [_b(3, 2, 1, 2, 3, [1, 2], dups=False, s0=s) for s in (1, 2)] + [_b(2, 3, 2, 2, 3, [1, 2, 3], dups=True, s0=s) for s in (1, 2, 3)]
+               + [_b(2, 2, 1, 3, 4, [2, 3], dups=True, dmax=2)]},
+        desc="Repairer._got_full_servermap(smap, force) with force symbolic, writecap by case, copies of one share number on several servers (they are not distinct shares): nothing recoverable -> unsuccessful result, grid "
              "untouched; unforced and (an unrecoverable version newer than every recoverable one, or a competing recoverable version at the "
              "best seqnum) -> MustForceRepairError before any download/upload; it refuses only if a newer unrecoverable version or two "
              "recoverable versions with one seqnum exist; no writecap -> RepairRequiresWritecapError; otherwise downloads exactly the best "
